@@ -11,6 +11,11 @@ R4 copy-out: a memoised getter whose row contains JSON-decoded containers is dec
    (cachebox's default copies only the top level: callers would share nested values with the cache).
 R5 ownership: the `*_cache` objects are touched only by the decorator lambdas, the update_* methods and the constructor.
 R6 reads bypassing the cache read the database: un-memoised getters execute a SELECT on every call (no ad-hoc dict).
+R7 exclusion: a memoised getter suspends between its SELECT and the moment the decorator stores the row; an updater
+   of the same table that runs in between pops an empty slot and the in-flight read then stores the *old* row (S18).
+   Every memoised getter that has an updater therefore performs its whole database read under a lock attribute of the
+   instance (an `asyncio.Lock()` created in a constructor of the class), and each of its updaters executes the
+   statement *and* pops the cache inside one `async with` on the same lock.
 """
 
 from __future__ import annotations
@@ -34,7 +39,8 @@ META = {
         "write never returns a stale or caller-modified row'; SQLite visibility semantics are trusted."
     ),
     "undecided": "SQLite / aiosqlite visibility semantics (trusted); correctness of the SQL itself",
-    "assumptions": ["cachebox 6.2.0: key = positional args after self; default postprocess copies only top-level dict/list/set"],
+    "assumptions": ["cachebox 6.2.0: key = positional args after self; default postprocess copies only top-level dict/list/set",
+                    "cachebox 6.2.0 async wrapper: `result = await func(...)` is followed by the cache store without a suspension point"],
 }
 
 DEEP = {"postprocess_deepcopy", "postprocess_deepcopy_mutables"}
@@ -303,17 +309,111 @@ def r6(ctx):
     ctx.require(n >= 15, f"C09.R6: only {n} un-memoised getters found")
 
 
-RULES = [("R1", r1), ("R2", r2), ("R3", r3), ("R4", r4), ("R5", r5), ("R6", r6)]
-FLOORS = {"R1": 10, "R2": 30, "R3": 11, "R4": 6, "R5": 14, "R6": 15}
+def _lock_attrs(p, cq: str) -> set[str]:
+    """Instance attributes of class cq (MRO) that a constructor binds to a freshly created lock (`<mod>.Lock()` / `Lock()`)."""
+    out = set()
+    for q in p.mro(cq):
+        c = p.classes.get(q)
+        init = c.methods.get("__init__") if c is not None else None
+        if init is None:
+            continue
+        for n in init.body_nodes():
+            tgt = val = None
+            if isinstance(n, ast.Assign) and len(n.targets) == 1:
+                tgt, val = n.targets[0], n.value
+            elif isinstance(n, ast.AnnAssign) and n.value is not None:
+                tgt, val = n.target, n.value
+            if (isinstance(tgt, ast.Attribute) and isinstance(tgt.value, ast.Name) and tgt.value.id == "self"
+                    and isinstance(val, ast.Call) and (dotted(val.func) or "").split(".")[-1] in ("Lock", "RLock", "Semaphore", "BoundedSemaphore")
+                    and not (val.args or val.keywords) or
+                    (isinstance(tgt, ast.Attribute) and isinstance(val, ast.Call) and (dotted(val.func) or "").split(".")[-1] == "Lock")):
+                if isinstance(tgt, ast.Attribute) and isinstance(tgt.value, ast.Name) and tgt.value.id == "self":
+                    out.add(tgt.attr)
+    return out
+
+
+def _held_locks(node: ast.AST, locks: set[str]) -> set[str]:
+    """Lock attributes certainly held while `node` is evaluated (lexical `async with self.<lock>` scopes of the same function)."""
+    held = set()
+    child = node
+    for a in ancestors(node):
+        if isinstance(a, (ast.FunctionDef, ast.AsyncFunctionDef, ast.Lambda)):
+            break
+        if isinstance(a, ast.AsyncWith):
+            in_body = any(child is s for s in a.body)
+            idx = next((i for i, it in enumerate(a.items) if child is it or child is it.context_expr or child is it.optional_vars), None)
+            for i, it in enumerate(a.items):
+                e = it.context_expr
+                if isinstance(e, ast.Attribute) and isinstance(e.value, ast.Name) and e.value.id == "self" and e.attr in locks:
+                    if in_body or (idx is not None and i < idx):
+                        held.add(e.attr)
+        child = a
+    return held
+
+
+def r7(ctx):
+    p = ctx.prog
+    getters = _getters(ctx)
+    n = 0
+    for q, (f, attr, tables, dec) in getters.items():
+        cq = q.rsplit(".", 1)[0]
+        cls = p.classes[cq]
+        locks = _lock_attrs(p, cq)
+        own = f.name[len("get_"):] if f.name.startswith("get_") else f.name
+        ups = []
+        for m in cls.methods.values():
+            for e in _exec_calls(m):
+                sql = _sql_of(e)
+                mu = _mutation(sql) if sql else None
+                if mu and mu[1] == own and _pops(m).get(attr):
+                    ups.append((m, e))
+        if not ups:
+            continue
+        n += 1
+        # the whole read: every statement execution and every explicit await of the getter
+        points = _exec_calls(f) + [x for x in f.body_nodes() if isinstance(x, ast.Await)]
+        common = set(locks)
+        for x in points:
+            common &= _held_locks(x, locks)
+        ctx.ob("R7", f"{f.name} performs its database read under an instance lock", bool(points) and bool(common), func=f, node=f.node,
+               instance=f"{f.name}:read-locked",
+               message=f"{f.name} suspends between its SELECT and the cache store without holding a lock: an update of the same row that runs in "
+                       f"between pops an empty slot and the read then caches the old row for every later call")
+        for m, e in ups:
+            pops = [pc for pc in _pops(m).get(attr, [])]
+            same_stmt = False
+            held = set()
+            for pc in pops:
+                hl = _held_locks(e, locks) & _held_locks(pc, locks) & common
+                for lk in hl:
+                    # one critical section: the `async with self.<lk>` around the statement is the one around this pop
+                    def scope(node, lk=lk):
+                        for a in ancestors(node):
+                            if isinstance(a, ast.AsyncWith) and any(unparse(it.context_expr) == f"self.{lk}" for it in a.items):
+                                return a
+                        return None
+                    if scope(e) is not None and scope(pc) is scope(e):
+                        same_stmt = True
+                        held.add(lk)
+            ok = bool(common) and bool(held & common) and same_stmt
+            ctx.ob("R7", f"{m.name} executes the statement and invalidates {attr} in one critical section shared with {f.name}", ok, func=m, node=e,
+                   instance=f"{m.name}:{attr}:exclusive",
+                   message=f"{m.name} updates table `{own}` and pops self.{attr} without excluding an in-flight {f.name}: the stale row read before the "
+                           f"UPDATE is cached after the pop")
+    ctx.require(n >= 4, f"C09.R7: only {n} memoised getters with an updater found")
+
+
+RULES = [("R1", r1), ("R2", r2), ("R3", r3), ("R4", r4), ("R5", r5), ("R6", r6), ("R7", r7)]
+FLOORS = {"R1": 10, "R2": 30, "R3": 11, "R4": 6, "R5": 14, "R6": 15, "R7": 10}
 
 VARIANTS = [
     V("update_step: pop removed", FILE, f"{DB}.update_step", "self.step_cache.pop(step_id, None)", "pass", "R1", control=True),
     V("update_port pops another cache", FILE, f"{DB}.update_port", "self.port_cache.pop(port_id, None)", "self.step_cache.pop(port_id, None)", "R1"),
     V("update_target pops also before the execute", FILE, f"{DB}.update_target",
-      "async with self.connection as db:", "self.target_cache.pop(target_id, None)\n    async with self.connection as db:", None),
+      "async with self._cache_lock, self.connection as db:", "self.target_cache.pop(target_id, None)\n    async with self._cache_lock, self.connection as db:", None),
     V("update_filter pops only before the execute", FILE, f"{DB}.update_filter",
-      "async with self.connection as db:\n        async with db.execute('UPDATE filter SET {} WHERE id = :id'.format(', '.join([f'{k} = :{k}' for k in updates])), cast(dict[str, Any], updates) | {'id': filter_id}):\n            self.filter_cache.pop(filter_id, None)\n            return filter_id",
-      "self.filter_cache.pop(filter_id, None)\n    async with self.connection as db:\n        async with db.execute('UPDATE filter SET {} WHERE id = :id'.format(', '.join([f'{k} = :{k}' for k in updates])), cast(dict[str, Any], updates) | {'id': filter_id}):\n            return filter_id", "R1"),
+      "async with self._cache_lock, self.connection as db:\n        async with db.execute('UPDATE filter SET {} WHERE id = :id'.format(', '.join([f'{k} = :{k}' for k in updates])), cast(dict[str, Any], updates) | {'id': filter_id}):\n            self.filter_cache.pop(filter_id, None)\n            return filter_id",
+      "self.filter_cache.pop(filter_id, None)\n    async with self._cache_lock, self.connection as db:\n        async with db.execute('UPDATE filter SET {} WHERE id = :id'.format(', '.join([f'{k} = :{k}' for k in updates])), cast(dict[str, Any], updates) | {'id': filter_id}):\n            return filter_id", "R1"),
     V("update_deployment pops a constant key", FILE, f"{DB}.update_deployment", "self.deployment_cache.pop(deployment_id, None)", "self.deployment_cache.pop(0, None)", "R1"),
     V("new UPDATE token method without pop", FILE, f"{DB}.update_execution",
       "'UPDATE execution SET {} WHERE id = :id'", "'UPDATE token SET {} WHERE id = :id'", "R2", control=True),
@@ -327,8 +427,20 @@ VARIANTS = [
     V("external cache poke", "streamflow/persistence/loading_context.py", None, None, None, "R5",
       append="def _poke(context, i):\n    context.database.step_cache.pop(i, None)\n"),
     # benign
-    V("memoise get_workflow (its updater already pops workflow_cache)", FILE, f"{DB}.get_workflow", "async def get_workflow(",
-      "@cached(cache=lambda self: self.workflow_cache, postprocess=postprocess_deepcopy_mutables)\nasync def get_workflow(", None),
+    V("memoise get_workflow without excluding update_workflow", FILE, f"{DB}.get_workflow", "async def get_workflow(",
+      "@cached(cache=lambda self: self.workflow_cache, postprocess=postprocess_deepcopy_mutables)\nasync def get_workflow(", "R7"),
+    V("get_step reads without the lock (S18 revert)", FILE, f"{DB}.get_step", "async with self._cache_lock, self.connection as db:", "async with self.connection as db:", "R7", control=True),
+    V("update_port without the lock (S18 revert)", FILE, f"{DB}.update_port", "async with self._cache_lock, self.connection as db:", "async with self.connection as db:", "R7"),
+    V("update_target pops after leaving the critical section", FILE, f"{DB}.update_target",
+      "            self.target_cache.pop(target_id, None)\n            return target_id", "            pass\n    self.target_cache.pop(target_id, None)\n    return target_id", "R7"),
+    V("get_deployment takes the lock only for the connection", FILE, f"{DB}.get_deployment",
+      "async with self._cache_lock, self.connection as db:\n        async with db.execute(", "async with self._cache_lock:\n        db = await self.connection.__aenter__()\n    if db:\n        async with db.execute(", "R7"),
+    V("get_filter under another lock than update_filter", FILE, f"{DB}.get_filter", "async with self._cache_lock, self.connection as db:", "async with self.connection._lock2, self.connection as db:", "R7"),
+    V("lock attribute is not a lock", FILE, f"{DB}.__init__", "self._cache_lock: asyncio.Lock = asyncio.Lock()", "self._cache_lock = contextlib.nullcontext()", "R7"),
+    V("nested async with for the lock (benign)", FILE, f"{DB}.get_port",
+      "async with self._cache_lock, self.connection as db:\n        async with db.execute('SELECT * FROM port WHERE id = :id', {'id': port_id}) as cursor:\n            return _load_keys(dict(await cursor.fetchone()))",
+      "async with self._cache_lock:\n        async with self.connection as db:\n            async with db.execute('SELECT * FROM port WHERE id = :id', {'id': port_id}) as cursor:\n                return _load_keys(dict(await cursor.fetchone()))", None),
+    V("lock renamed consistently (benign)", FILE, DB, "self._cache_lock", "self._rw_guard", None, count=11),
     V("f-string SQL", FILE, f"{DB}.update_step", "'UPDATE step SET {} WHERE id = :id'.format(', '.join([f'{k} = :{k}' for k in updates]))",
       "'UPDATE step SET ' + ', '.join([f'{k} = :{k}' for k in updates]) + ' WHERE id = :id'", None),
     V("rename parameter binding", FILE, f"{DB}.get_target", "target_id", "tid", None, count=2),
